@@ -9,13 +9,16 @@ def run(chk):
     items = inputs.corpus_items() + inputs.script_items(chk, 1500 if quick else 20000, chk.seed + 1)
     traces, meta, verdicts, cfg = graphcheck.run(chk, "C18", items)
     ok = [traces[i] for i, v in verdicts.items() if v[1] == "ok" and traces[i]["xc"]["edges"] and traces[i]["xt"]["edges"]]
-    t1 = copy.deepcopy(ok[0]); t1["xt"]["edges"][0]["t"] = "<default>.nowhere"
-    t2 = copy.deepcopy(ok[0]); t2["xc"]["cols"].append(dict(t2["xc"]["cols"][0]))
-    t3 = copy.deepcopy(ok[0]); t3["sum"]["src"] = list(reversed(t3["sum"]["src"])) + t3["sum"]["src"][:1]
-    t4 = copy.deepcopy(ok[0]); t4["xc"]["cols"][0]["parent"] = "<default>.someone_else"
-    v = core.validate_traces(chk, "Trace_Graph", cfg, [t1, t2, t3, t4], "selftest")
-    chk.cov["traces_validated_against_impl"] -= 4
-    chk.self_test("corrupted exports are rejected", all(x[1] != "ok" for x in v.values()), str([x[1] for x in v.values()]))
+    if ok:
+        t1 = copy.deepcopy(ok[0]); t1["xt"]["edges"][0]["t"] = "<default>.nowhere"
+        t2 = copy.deepcopy(ok[0]); t2["xc"]["cols"].append(dict(t2["xc"]["cols"][0]))
+        t3 = copy.deepcopy(ok[0]); t3["sum"]["src"] = list(reversed(t3["sum"]["src"])) + t3["sum"]["src"][:1]
+        t4 = copy.deepcopy(ok[0]); t4["xc"]["cols"][0]["parent"] = "<default>.someone_else"
+        v = core.validate_traces(chk, "Trace_Graph", cfg, [t1, t2, t3, t4], "selftest")
+        chk.cov["traces_validated_against_impl"] -= 4
+        chk.self_test("corrupted exports are rejected", all(x[1] != "ok" for x in v.values()), str([x[1] for x in v.values()]))
+    elif not chk.violations:
+        raise core.MachineryError("no accepted result to run the binding self-test on")
     chk.cov["rule"] = ("cases = results of the real LineageRunner on the harvested corpus and on scripts rendered from TLC-simulated histories "
                        "of Script.tla; both Cytoscape exports and the text summary are projected and compared by TLC with the observed graph "
                        "and role lists. non-trivial = the result has column nodes.")
